@@ -227,7 +227,7 @@ class Registration(Endpoint):
                     return err
                 if _up.fragment:
                     # store base and fragment
-                    _uris.append(uri.split("#"))
+                    _uris.append(uri.split("#", 1))
                 else:
                     _uris.append([uri, ""])
             _cinfo["request_uris"] = _uris
